@@ -97,7 +97,9 @@ def near_rule_patterns(draw, names):
     k = draw(st.integers(2, 4))
     k = min(k, len(names))
     vs = draw(st.lists(st.sampled_from(names), min_size=k, max_size=k, unique=True))
-    which = draw(st.integers(0, 7))
+    which = draw(st.integers(0, 9))
+    if which >= 8:
+        which = 1
     if which >= 6:
         # operands that differ as written and coincide once a rewrite step has been applied to them:
         # x op desugared(x)  (a duplicate may be dropped under and / or, never under xor)
@@ -119,6 +121,16 @@ def near_rule_patterns(draw, names):
         a = ["and", [["not", ["s", v]] if n else ["s", v] for v, n in zip(vs, neg)]]
         b = ["and", [["s", v] if n else ["not", ["s", v]] for v, n in zip(vs, neg)]]
         return ["or", [a, b]]
+    if which == 1 and k >= 3 and draw(st.integers(0, 2)) > 0:
+        # complementary conjunctions of DIFFERENT arity: (l1&l2) | (~l1&~l2&~l3 ...) and the mirror image
+        neg = draw(st.lists(st.booleans(), min_size=k, max_size=k))
+        if draw(st.booleans()):
+            neg = [neg[0]] * k  # the rule's own sign pattern: all plain against all negated
+            vs = sorted(vs) if draw(st.booleans()) else vs
+        short = draw(st.integers(2, k - 1))
+        a = ["and", [["not", ["s", v]] if n else ["s", v] for v, n in list(zip(vs, neg))[:short]]]
+        b = ["and", [["s", v] if n else ["not", ["s", v]] for v, n in zip(vs, neg)]]
+        return ["or", [a, b] if draw(st.booleans()) else [b, a]]
     if which == 1:
         # partially negated pair
         a = ["and", [["s", v] for v in vs]]
